@@ -2,7 +2,9 @@
    M C <order> <lambda> <ids>:<p>:<b> ... C <order> <lambda> ...     component tables (ids = universal word ids, ',' separated)
         -> <ids>:<P>:<B> ... |R <buggy 0/1> <fixed 0/1>      P = sum_i lambda_i * full back-off score, B = sum_i lambda_i * back-off
    V <h,h,..>;<h,..>;...    per-model vocabulary hashes (words 1..), "-" = none
-        -> G:<h,..>|M:<gi,..>;<gi,..>   or FUEL *)
+        -> G:<h,..>|M:<gi,..>;<gi,..>   or FUEL
+   B <bounds hex bytes> <values hex bytes>     bounded sequence encoding ("-" = empty)
+        -> L:<length> E:<encoded bytes hex|-> D:<decoded hex|->      (same format as harness/drivers/c13_driver.cc) *)
 open C13_model
 (*INCLUDE zio*)
 
@@ -35,6 +37,12 @@ let handle (line : string) : string =
       let rows = merged_Z cs in
       String.concat " " (List.map (fun (g, (p, b)) -> str_ids g ^ ":" ^ hex_of_z p ^ ":" ^ hex_of_z b) rows)
       ^ " |R " ^ (if reunify_ok_Z false cs then "1" else "0") ^ " " ^ (if reunify_ok_Z true cs then "1" else "0")
+  | "B" :: bh :: vh :: [] ->
+      let bytes_of h = if h = "-" then [] else List.init (String.length h / 2) (fun i -> n_of_hex (String.sub h (2 * i) 2)) in
+      let hex_of l = if l = [] then "-" else String.concat "" (List.map (fun b -> let h = hex_of_n b in if String.length h = 1 then "0" ^ h else h) l) in
+      let bounds = bytes_of bh and vals = bytes_of vh in
+      let e = encode bounds vals in
+      "L:" ^ hex_of_n (encoded_length bounds) ^ " E:" ^ hex_of e ^ " D:" ^ hex_of (decode bounds e)
   | "V" :: files :: [] ->
       let fs = List.map ids_of (String.split_on_char ';' files) in
       (match merge_vocab fs with
